@@ -23,6 +23,7 @@ import   "math"
 
 import . "github.com/pbenner/autodiff"
 import . "github.com/pbenner/threadpool"
+import   "github.com/pbenner/autodiff/verifhook"
 
 /* -------------------------------------------------------------------------- */
 
@@ -161,6 +162,8 @@ func (obj *Hmm) BaumWelchStep(hmm1, hmm2 *Hmm, data HmmDataSet, meta ConstVector
     // make a thread-safe copy of d
     d := d_
     if err := p.AddJob(g, func(p ThreadPool, erf func() error) error {
+      verifhook.Yield("generic.hmm_baumWelch.job")
+      verifhook.Event("generic.hmm_baumWelch", d, p.GetThreadId())
       if erf() != nil {
         return nil
       }
@@ -176,6 +179,7 @@ func (obj *Hmm) BaumWelchStep(hmm1, hmm2 *Hmm, data HmmDataSet, meta ConstVector
     hmm1.Tr.Map(func(x Scalar) { x.SetFloat64(math.Inf(-1)) })
   }
   // wait for all threads to finish
+  verifhook.Yield("generic.hmm_baumWelch.queued")
   if err := p.Wait(g); err != nil {
     return math.Inf(-1), nil
   }
